@@ -293,6 +293,12 @@ pub fn assemble(ctx: &mut Ctx, c: &Value) -> (Vec<u8>, bool) {
     let skey = ctx.pki.key(if g("sig") == "wrongkey" { "e1" } else { "e0" });
     let mut signature = ctx.pki.signer.sign(&skey, rpki::crypto::RpkiSignatureAlgorithm::default(), &to_sign).unwrap().value().to_vec();
     if g("sig") == "bitflip" { let n = signature.len(); signature[n / 2] ^= 0x04; }
+    if g("sig") == "stale" {
+        // what is embedded is not what was signed: the signing time moved on by a second
+        let st2 = attribute(OID_AT_SIGNING_TIME, der::utctime("240301120001Z"));
+        for a in attrs.iter_mut() { if *a == st { *a = st2.clone(); } }
+        attrs.sort();
+    }
     let mut sid = ctx.pki.pubkey("e0").key_identifier().as_slice().to_vec();
     if g("ee") == "skibad" { sid[19] ^= 0x01; }          // the signer identifier follows the certificate's (wrong) identifier
     if g("sid") == "bad" { sid[0] ^= 0x80; }
